@@ -7,7 +7,7 @@ from vlib import core
 ID = "C20"
 MODULE = "RkVerif.Props.C20"
 DRIVER = "drv_c20"
-THOROUGH_MODULES = ["RkVerif.Model.C20", "RkVerif.Lemmas.C20"]
+THOROUGH_MODULES = ["RkVerif.Model.C20", "RkVerif.Lemmas.C20", "RkVerif.Lemmas.C20Trace"]
 
 
 def _chunk_size():
@@ -33,7 +33,8 @@ RULE = ("image cases: widths/heights 1..9 (thorough 1..40) with single rows/colu
         "writers (writePPM, writePGM, writePFM<float|vec3f|vec3fa|vec4f>), pixel words either arithmetic progressions that make "
         "every component byte/word of neighbouring pixels distinct or uniformly random 32-bit patterns, copied into exact-size "
         "heap buffers under ASan, files decoded by an independent Netpbm/PFM reader; trace cases: 1..8 threads (each case in a "
-        "forked process), per-thread programs of begin/end (nesting depth 0..6, occasionally left open), markers, counters "
+        "forked process), per-thread programs of begin/end (nesting depth 0..6, occasionally left open, some held open for >100 us "
+        "so that derived cpuUtilization counters appear), markers, counters "
         "(values up to 2^63), thread names, names/categories from alphabets of 4/3; event counts 0, 1 and CHUNK-1, CHUNK, "
         "CHUNK+1, 2*CHUNK(+1) with begin/end pairs straddling the chunk boundary, with and without a process name, "
         "including the completely empty log; output parsed by a strict RFC 8259 parser. A case is non-trivial when it "
@@ -91,7 +92,7 @@ BIG = [0, 1, 7, 255, 65536, 4294967296, 9223372036854775808]
 
 def _events(rng, n, max_depth, leave_open=False):
     """a well-nested program of about n events"""
-    out, depth = [], 0
+    out, depth, pauses = [], 0, 0
     while len(out) < n:
         r = rng.random()
         if r < 0.30 and depth < max_depth:
@@ -102,8 +103,11 @@ def _events(rng, n, max_depth, leave_open=False):
             depth -= 1
         elif r < 0.75:
             out.append("M.%s.%s" % (rng.pick(NAMES), rng.pick(CATS)))
-        elif r < 0.95:
+        elif r < 0.93:
             out.append("C.%s.%d" % (rng.pick(NAMES), rng.pick(BIG) if rng.chance(0.5) else rng.randrange(1000)))
+        elif r < 0.97 and depth > 0 and pauses < 4:
+            out.append("Z")      # pause inside an open begin: its end gets a derived cpuUtilization counter
+            pauses += 1
         else:
             out.append("M.%s.-" % rng.pick(NAMES))
     if not leave_open:
@@ -164,7 +168,7 @@ def gen_cases(rng, tier, h):
     cases.append(["thr 0 M.a.-", "save -"])
     cases.append(["thr 0 B.a.c1 E", "save -"])
     # ---- traces
-    for _ in range(120 if quick else 1500):
+    for _ in range(120 if quick else 4000):
         cases.append(_trace_case(rng))
     bp = _boundary_programs(rng, CHUNK)
     if quick:
@@ -178,7 +182,7 @@ def gen_cases(rng, tier, h):
             cases.append(["thr %d %s" % (k, " ".join(p)) for k in range(T)] + ["save " + rng.pick(["-", "p"])])
     # ---- images
     hi = 9 if quick else 40
-    for _ in range(60 if quick else 500):
+    for _ in range(60 if quick else 1200):
         c = []
         for _ in range(rng.randint(2, 5)):
             fmt, wpp = rng.pick(FORMATS)
